@@ -3,6 +3,7 @@ use std::collections::HashSet;
 use bincode::{Decode, Encode};
 use regex::Regex;
 
+#[cfg_attr(vibrato_verif, derive(Clone))]
 #[derive(Eq, PartialEq, Decode, Encode)]
 enum Pattern {
     Any,
@@ -10,24 +11,28 @@ enum Pattern {
     Multiple(HashSet<String>),
 }
 
+#[cfg_attr(vibrato_verif, derive(Clone))]
 #[derive(Decode, Encode)]
 enum Rewrite {
     Reference(usize),
     Text(String),
 }
 
+#[cfg_attr(vibrato_verif, derive(Clone))]
 #[derive(Decode, Encode)]
 struct Edge {
     pattern: Pattern,
     target: usize,
 }
 
+#[cfg_attr(vibrato_verif, derive(Clone))]
 #[derive(Decode, Encode)]
 enum Action {
     Transition(Edge),
     Rewrite(Vec<Rewrite>),
 }
 
+#[cfg_attr(vibrato_verif, derive(Clone))]
 #[derive(Default, Decode, Encode)]
 struct Node {
     actions: Vec<Action>,
@@ -104,6 +109,7 @@ impl FeatureRewriterBuilder {
 }
 
 /// Rewriter that maintains rewrite patterns and rules in a prefix trie.
+#[cfg_attr(vibrato_verif, derive(Clone))]
 #[derive(Decode, Encode)]
 pub struct FeatureRewriter {
     nodes: Vec<Node>,
